@@ -338,7 +338,7 @@ fn main() {
         let a = observe(&outs[0])?;
         let b = observe(&outs[1])?;
         if !(a.check_ok && a.build_ok) {
-            return Ok(None); // base program itself is not usable
+            return Err("the base program of this pair does not check/build on this tree".to_string());
         }
         if a != b {
             return Ok(Some(format!("base: check={} build={} status={:?}\nrenamed: check={} build={} status={:?}\n{}", a.check_ok, a.build_ok, a.status, b.check_ok, b.build_ok, b.status, describe(&outs[1]))));
@@ -370,6 +370,27 @@ fn main() {
             match judge_pair(b, r, &farm) {
                 Ok(res) => out.known_replayed(&e.key, res.is_some()),
                 Err(err) => out.inconclusive(&err),
+            }
+        }
+    }
+
+    // ---- regression corpus: pairs of fixed findings must keep behaving alike
+    if let Ok(rd) = std::fs::read_dir(vcore::verif_root().join("known/C13/fixed")) {
+        let mut files: Vec<_> = rd.flatten().map(|e| e.path()).filter(|p| p.extension().is_some_and(|e| e == "json")).collect();
+        files.sort();
+        for f in files {
+            let text = std::fs::read_to_string(&f).unwrap_or_default();
+            let v: serde_json::Value = serde_json::from_str(&text).unwrap_or_default();
+            if let (Some(b), Some(r)) = (v["base"].as_str(), v["renamed"].as_str()) {
+                ev.case(Some(util::hash_str(r)));
+                match judge_pair(b, r, &farm) {
+                    Ok(Some(d)) => {
+                        let name = f.file_stem().map(|s| s.to_string_lossy().to_string()).unwrap_or_default();
+                        out.violation(&mut ev, &format!("regression:{name}"), "json", &text, &format!("a fixed finding is back\n{d}"));
+                    }
+                    Ok(None) => {}
+                    Err(e) => out.inconclusive(&format!("regression input {}: {e}", f.display())),
+                }
             }
         }
     }
